@@ -9,6 +9,7 @@ import os, subprocess
 _DRV = os.path.normpath(os.path.join(os.path.dirname(os.path.abspath(__file__)), "..", "..", "lean", ".lake", "build", "bin", "cifmodel"))
 _pending = []
 _lab = {}
+_first = {}
 
 
 def record(req):
@@ -28,4 +29,14 @@ def label(req):
         for k, r in enumerate(batch):
             o = out[k] if k < len(out) else ""
             _lab[r] = "in-contract" if o == "ic" else ("out-of-contract" if o.startswith("oc") else "contract-unknown")
+            try:
+                _first[r] = int(o.split()[1]) if o.startswith("oc") else None
+            except Exception:
+                _first[r] = None
     return _lab[req]
+
+
+def first_out_of_contract(req):
+    """index of the first op of the history that does not keep to the documented contract (None: the whole history does)"""
+    label(req)
+    return _first.get(req)
